@@ -231,8 +231,8 @@ func c07(c *core.Ctx) {
 		// with C02/R1), and the single-response probe, where a terminal transport error surfaces (C08/R1)
 		c02HttpEOF(c)
 		c02TrailerIffNegative(c)
-		if singleResponseProbes(c) < 2 {
-			c.Missing("client stream types with a single-response probe")
+		if singleResponseProbes(c, "httpgrpc") < 1 {
+			c.Missing("HTTP client stream type with a single-response probe")
 		}
 		c.EndRule()
 	}
